@@ -273,7 +273,13 @@ def _run_case(ck, desc):
             if kind == "profiles":
                 with warnings.catch_warnings(), np.errstate(all="ignore"):
                     warnings.simplefilter("ignore")
-                    ax = bp.plot_pseudopressure(res, every=desc["every"], rescale=desc["rescale"])
+                    # (the flag as the caller happens to have it: a Python bool, the result of a numpy comparison,
+                    #  an integer read from a settings table; the stride as a numpy integer)
+                    k_flag = int(desc["every"]) % 4
+                    flag = ([True, np.True_, 1, np.bool_(True)] if desc["rescale"] else [False, np.False_, 0, np.bool_(False)])[k_flag]
+                    stride = [desc["every"], np.int64(desc["every"]), np.int32(desc["every"]), desc["every"]][(int(desc["every"]) // 4) % 4]
+                    ck.count(f"flag_types.rescale_as_{type(flag).__name__}")
+                    ax = bp.plot_pseudopressure(res, every=stride, rescale=flag)
                 got = _lines(ax)
                 rows = list(range(0, nt, desc["every"]))
                 if len(got) != len(rows):
@@ -321,7 +327,7 @@ def _run_case(ck, desc):
                 first = [(gx.copy(), gy.copy()) for gx, gy in got]
                 with warnings.catch_warnings(), np.errstate(all="ignore"):
                     warnings.simplefilter("ignore")
-                    ax_o = bp.plot_pseudopressure(res, every=max(1, nt // 3), rescale=True, ax=ax)
+                    ax_o = bp.plot_pseudopressure(res, every=max(1, nt // 3), rescale=(np.True_ if nt % 2 else True), ax=ax)
                 after = _lines(ax_o)
                 n_new = len(range(0, nt, max(1, nt // 3)))
                 if ax_o is not ax or len(after) != len(first) + n_new:
